@@ -7,13 +7,17 @@ JOINS = ["inner", "left", "right", "outer", "left_outer", "right_outer", "full_o
 
 
 class QG:
-    def __init__(self, rng, cls=None, sqlite_ok=False, strings="plain", allow_params=False, max_depth=2):
+    def __init__(self, rng, cls=None, sqlite_ok=False, strings="plain", allow_params=False, max_depth=2, portable=False,
+                 inner_same=False, vendor_terms=False):
         self.r = rng
         self.cls = cls
         self.sqlite_ok = sqlite_ok      # restrict to constructs SQLite executes
         self.strings = strings
         self.allow_params = allow_params
         self.max_depth = max_depth
+        self.portable = portable          # no pagination / vendor clauses: the same script is meaningful for every class
+        self.inner_same = inner_same      # sub-queries use the same class as the outer statement
+        self.vendor_terms = vendor_terms  # put Array / Interval terms into select lists
         self.lines = []
         self.nvar = 0
 
@@ -63,7 +67,7 @@ class QG:
         chain = []
         for _ in range(nfrom):
             if depth < self.max_depth and r.random() < 0.2:
-                sub = self.select(depth + 1, cls=r.choice(CLASSES) if r.random() < 0.3 else cls)
+                sub = self.select(depth + 1, cls=cls if self.inner_same else (r.choice(CLASSES) if r.random() < 0.3 else cls))
                 if r.random() < 0.5:
                     self.emit("%s = %s.as_(%r)" % (sub, sub, "sq_" + sub))
                 srcs.append(sub)
@@ -116,9 +120,13 @@ class QG:
                 e = g.crit(1)
             elif x < 0.92:
                 e = repr(r.choice([1, 2.5, "lit", True, None]))
+            elif x < 0.96 and self.vendor_terms:
+                e = r.choice(["Array(1, 2)", "(%s + Interval(days=1))" % r.choice(pool), "Array('x', %s)" % r.choice(pool),
+                              "(%s - Interval(hours=2, minutes=5))" % r.choice(pool)])
             else:
                 e = "%r" % r.choice(["a", "b"])      # string select -> Field on first FROM
-            if r.random() < 0.4 and not e.startswith("'") and not e[0].isdigit() and e not in ("True", "None"):
+            if r.random() < 0.4 and not e.startswith("'") and not e[0].isdigit() and e not in ("True", "None") \
+                    and not e.startswith("Interval("):
                 al = "al%d" % i if r.random() < 0.8 else r.choice(["a", "my col"])
                 e = "(%s).as_(%r)" % (e, al)
                 aliases.append(e)
@@ -144,7 +152,7 @@ class QG:
             chain.append(".orderby(%s%s)" % (ob, order))
         if r.random() < 0.3:
             chain.append(".distinct()")
-        if r.random() < 0.4:
+        if r.random() < 0.4 and not self.portable:
             x = r.random()
             if x < 0.4:
                 chain.append(".limit(%d)" % r.randint(0, 5))
@@ -154,7 +162,7 @@ class QG:
                 chain.append(".limit(%d).offset(%d)" % (r.randint(0, 5), r.randint(0, 5)))
             else:
                 chain.append("[%d:%d]" % (r.randint(0, 3), r.randint(0, 9)))
-        if not self.sqlite_ok:
+        if not self.sqlite_ok and not self.portable:
             chain += self.extras(cls, pool)
         r.shuffle(chain) if False else None
         v = self.var("q")
@@ -171,13 +179,13 @@ class QG:
                 out.append(".modifier(%r)" % r.choice(["SQL_CALC_FOUND_ROWS", "HIGH_PRIORITY"]))
             if r.random() < 0.2:
                 out.append(".for_update(nowait=%r, skip_locked=%r, of=(%s))" % (
-                    r.random() < 0.5, r.random() < 0.5, ", ".join(repr(x) for x in r.sample(["t", "u", "v"], r.randint(0, 3))) + ","))
+                    r.random() < 0.5, r.random() < 0.5, "".join(repr(x) + ", " for x in r.sample(["t", "u", "v"], r.randint(0, 3)))))
         if cls == "postgresql":
             if r.random() < 0.2:
                 out.append(".distinct_on(%s)" % r.choice(pool))
             if r.random() < 0.2:
                 out.append(".for_update(nowait=%r, skip_locked=%r, of=(%s))" % (
-                    r.random() < 0.5, r.random() < 0.5, ", ".join(repr(x) for x in r.sample(["t", "u", "v"], r.randint(0, 3))) + ","))
+                    r.random() < 0.5, r.random() < 0.5, "".join(repr(x) + ", " for x in r.sample(["t", "u", "v"], r.randint(0, 3)))))
         if cls == "mssql" and r.random() < 0.4:
             out.append(".top(%d%s)" % (r.randint(0, 20), r.choice(["", ", percent=True", ", with_ties=True"])))
         if cls == "clickhouse":
